@@ -4,10 +4,12 @@
 (exit 1). Prints a table; exit 0 iff all mutants were caught."""
 import glob, os, shutil, subprocess, sys, tempfile
 VERIF = os.path.dirname(os.path.dirname(os.path.abspath(__file__)))
-prop = sys.argv[1]
-sub = sys.argv[2] if len(sys.argv) > 2 else ""
+args = [a for a in sys.argv[1:] if a != "--benign"]
+BENIGN = "--benign" in sys.argv
+prop = args[0]
+sub = args[1] if len(args) > 1 else ""
 repo = os.environ.get("BSA_REPO", "/repo")
-patches = sorted(glob.glob(os.path.join(VERIF, "mutants", prop, "*.patch")))
+patches = sorted(glob.glob(os.path.join(VERIF, "mutants", "benign" if BENIGN else "", prop, "*.patch")))
 missed = []
 for p in patches:
     if sub and sub not in p:
@@ -25,12 +27,14 @@ for p in patches:
         r = subprocess.run([os.path.join(VERIF, "check"), prop], stdout=subprocess.PIPE, stderr=subprocess.STDOUT, text=True, env=env)
         rules = sorted(set(l.split()[0] for l in r.stdout.splitlines() if l.startswith("  " + prop + ".")))
         status = {0: "MISSED", 1: "caught", 2: "analysis-broken"}.get(r.returncode, "rc=%d" % r.returncode)
+        if BENIGN:
+            status = {0: "silent(ok)", 1: "FALSE-ALARM", 2: "analysis-broken"}.get(r.returncode, "rc=%d" % r.returncode)
         print("%-50s %-16s %s" % (os.path.basename(p), status, " ".join(rules)[:100]))
         if r.returncode == 2:
             print("    " + "\n    ".join(l for l in r.stdout.splitlines() if "ANALYSIS-BROKEN" in l)[:400])
-        if r.returncode != 1:
+        if r.returncode != (0 if BENIGN else 1):
             missed.append(p)
     finally:
         shutil.rmtree(d, ignore_errors=True)
-print("%d mutants, %d not caught" % (len(patches), len(missed)))
+print("%d %s, %d %s" % (len(patches), "benign edits" if BENIGN else "mutants", len(missed), "false alarms" if BENIGN else "not caught"))
 sys.exit(1 if missed else 0)
